@@ -732,7 +732,119 @@ func main() {
 			}
 			gb.WriteString("]\n")
 		}
+		// methods that store through their receiver (directly, or by calling such a method on the receiver
+		// or on something reachable from it): fixpoint over (type.method) names
+		type minfo struct {
+			key    string
+			direct bool
+			calls  []string // method names invoked on receiver-rooted expressions
+		}
+		var methods []*minfo
+		eachFunc(pi.p, func(fd *ast.FuncDecl, _ *ast.File) {
+			if fd.Recv == nil || len(fd.Recv.List) != 1 || len(fd.Recv.List[0].Names) != 1 {
+				return
+			}
+			recv := fd.Recv.List[0].Names[0].Name
+			rooted := func(e ast.Expr) bool {
+				for {
+					switch x := e.(type) {
+					case *ast.Ident:
+						return x.Name == recv
+					case *ast.SelectorExpr:
+						e = x.X
+					case *ast.IndexExpr:
+						e = x.X
+					case *ast.StarExpr:
+						e = x.X
+					case *ast.ParenExpr:
+						e = x.X
+					case *ast.CallExpr: // conversions such as (*TagList)(c)
+						if len(x.Args) == 1 {
+							e = x.Args[0]
+						} else {
+							return false
+						}
+					case *ast.UnaryExpr:
+						e = x.X
+					default:
+						return false
+					}
+				}
+			}
+			mi := &minfo{key: funcKey(fd)}
+			ast.Inspect(fd.Body, func(n ast.Node) bool {
+				switch x := n.(type) {
+				case *ast.AssignStmt:
+					for _, l := range x.Lhs {
+						if id, ok := l.(*ast.Ident); ok && id.Name == recv {
+							continue // rebinding the local receiver variable is not a store
+						}
+						if rooted(l) {
+							mi.direct = true
+						}
+					}
+				case *ast.IncDecStmt:
+					if rooted(x.X) {
+						mi.direct = true
+					}
+				case *ast.CallExpr:
+					if id, ok := x.Fun.(*ast.Ident); ok && id.Name == "delete" && len(x.Args) > 0 && rooted(x.Args[0]) {
+						mi.direct = true
+					}
+					if se, ok := x.Fun.(*ast.SelectorExpr); ok && rooted(se.X) {
+						mi.calls = append(mi.calls, se.Sel.Name)
+					}
+					if id, ok := x.Fun.(*ast.Ident); ok && (id.Name == "sort") {
+						mi.direct = true
+					}
+					if se, ok := x.Fun.(*ast.SelectorExpr); ok {
+						if pk, ok := se.X.(*ast.Ident); ok && pk.Name == "sort" {
+							for _, a := range x.Args {
+								if rooted(a) {
+									mi.direct = true
+								}
+							}
+						}
+					}
+				}
+				return true
+			})
+			methods = append(methods, mi)
+		})
+		writerNames := map[string]bool{}
+		for changed := true; changed; {
+			changed = false
+			for _, m := range methods {
+				name := m.key[strings.LastIndex(m.key, ".")+1:]
+				w := m.direct
+				for _, cl := range m.calls {
+					if writerNames[cl] {
+						w = true
+					}
+				}
+				if w && !writerNames[name] {
+					writerNames[name] = true
+					changed = true
+				}
+			}
+		}
+		var recvWriters []string
+		for _, m := range methods {
+			name := m.key[strings.LastIndex(m.key, ".")+1:]
+			isW := m.direct
+			for _, cl := range m.calls {
+				if writerNames[cl] {
+					isW = true
+				}
+			}
+			_ = name
+			if isW {
+				recvWriters = append(recvWriters, m.key)
+			}
+		}
+		sort.Strings(recvWriters)
 		w("Globals", globals)
+		w("ReceiverWriters", recvWriters)
 		w("GlobalWriters", writers)
 		w("GoStatements", gos)
 		w("SyncUnsafeImports", danger)
